@@ -109,7 +109,7 @@ def run(ctx):
             plen = r.choice([n, n, max(n - 1, 0), 2, n + 3])
             fc = r.choice([0, 4, 8, 12, 32, 36, 40, 44, r.getrandbits(8)])
             ind = c.APS.DataIndication.Ind(ParamLength=21, PayloadLength=plen, FrameFC=zt.APSFrameFC(fc), SrcAddr=t.NWK(r.getrandbits(16)),
-                                           DstAddr=t.NWK(0), GrpAddr=t.NWK(r.getrandbits(16)), DstEndpoint=r.getrandbits(8), SrcEndpoint=r.getrandbits(8),
+                                           DstAddr=t.NWK(r.choice([0, 0, 0x1234, 0xFFF7, 0xFFF8, 0xFFFB, 0xFFFC, 0xFFFD, 0xFFFF, r.getrandbits(16)])), GrpAddr=t.NWK(r.getrandbits(16)), DstEndpoint=r.getrandbits(8), SrcEndpoint=r.getrandbits(8),
                                            ClusterId=r.getrandbits(16), ProfileId=r.getrandbits(16), PacketCounter=1, SrcMACAddr=t.NWK(1),
                                            DstMACAddr=t.NWK(2), LQI=r.getrandbits(8), RSSI=r.randrange(-128, 128), KeySrcAndAttr=zt.ApsAttributes(0),
                                            Payload=zt.Payload(payload))
